@@ -311,9 +311,18 @@ def explore(make, watch, bound, check, journal=None, max_schedules=None, shard=N
                             stack.append(x.choices[:i] + [alt])
             if cur_en and c != 0:
                 pre += 1
+        nruns = st.get('_runs', 0) + 1
+        st['_runs'] = nruns
+        if nruns % 100 == 0:
+            # worlds are cyclic garbage and the workers run with the collector
+            # off (its timing must not decide when a value dies): collect
+            # between two executions, when no scheduled thread exists
+            import gc
+            gc.collect()
         if max_schedules and st['schedules'] >= max_schedules:
             st['capped'] = True
             return st
+    st.pop('_runs', None)
     return st
 
 
